@@ -338,7 +338,14 @@ func runCase(c Case) *ev.Failure {
 			short = bareLabel(m.Header.EndToEndID)
 		}
 		a.NewAVP(tagCode, tagFlags, 0, datatype.OctetString(short))
-		_, err := a.WriteTo(conn)
+		var err error
+		if m.Header.EndToEndID&4 != 0 {
+			// written to the association itself (a MultistreamWriter that is not the handler's
+			// Conn), as an application that runs its own read loop on the association does
+			_, err = a.WriteTo(conn.Connection())
+		} else {
+			_, err = a.WriteTo(conn)
+		}
 		mu.Lock()
 		got = append(got, d)
 		kept = append(kept, m)
@@ -1077,7 +1084,7 @@ const rule = "scenario = 1..16 streams (ids 0..15), per stream 0..6 request mess
 	"(bodies < 1000, 1000..1032, 1.5-6 KiB, rarely > 64 KiB), per stream a chunking of its concatenated bytes (whole messages; cuts at header offsets 1/4/19/20/21 and around the end; " +
 	"random cuts; chunks spanning several messages; runs of 1-byte chunks) and a merge of all chunks keeping each stream's order (random, round robin, bursts, two alternating streams); " +
 	"all chunks then EOF are fed to the in-memory SCTP backend (before the loop starts, or once its reader is parked) and consumed by diam.NewConn's own loop; the handler records " +
-	"(MessageStream, header, payload) and replies with Answer(2001)+label via WriteTo; half of the messages are first forwarded with WriteToStream to another writer and stream, as a relay does. Demanded: every delivery is byte-for-byte a sent message, reported on its origin stream; per stream all messages, " +
+	"(MessageStream, header, payload) and replies with Answer(2001)+label via WriteTo; half of the messages are first forwarded with WriteToStream to another writer and stream, as a relay does, and half of the replies are written to the association itself (conn.Connection()) instead of the handler's Conn. Demanded: every delivery is byte-for-byte a sent message, reported on its origin stream; per stream all messages, " +
 	"once, in order; exactly one reply per message recorded by the backend on the origin stream with the Diameter PPID; the loop closes the transport after EOF. " +
 	"1 in 6 cases another association of the same process has died of a read error in mid-message just before, with complete messages still buffered for 1..6 of the case's stream numbers: nothing of it may show. " +
 	"non-trivial = >= 2 streams carrying messages and >= 1 message between whose first and last chunk a chunk of another stream arrives"
